@@ -416,6 +416,10 @@ class Exec:
                 raise NotInSubset('`in` on this container')
             return r if isinstance(op, ast.In) else Not(r)
         if isinstance(op, (ast.Is, ast.IsNot)):
+            for p_, q_ in ((a, b), (b, a)):
+                if q_ is None and getattr(p_, 'is_none', None) is not None:
+                    # an optional index (e.g. a pin that holds a Line or None): None-ness is a symbolic condition
+                    return p_.is_none if isinstance(op, ast.Is) else Not(p_.is_none)
             if is_sym(a) or is_sym(b):
                 r = False if (a is None or b is None) else None
                 if r is None:
@@ -617,7 +621,13 @@ class Exec:
         if f is zip and not kwargs:
             its = [a.m_iter(self, st, node) if isinstance(a, Model) else a for a in args]
             if any(isinstance(i, SymIter) for i in its):
-                raise NotInSubset('zip over symbolic iterables')
+                if not all(isinstance(i, SymIter) for i in its):
+                    raise NotInSubset('zip over symbolic and concrete iterables')
+                n = its[0].length
+                for i in its[1:]:
+                    c = i.length < n
+                    n = self.merge_values(st, c, i.length, n, node) if is_sym(c) else (i.length if c else n)
+                return SymIter(n, lambda ex, st_, k: tuple(i.item(ex, st_, k) for i in its))
             return list(zip(*its))
         if f is isinstance and len(args) == 2:
             a = args[0]
@@ -974,6 +984,8 @@ class Exec:
     def check_frame(self, ref, o, node):
         h_keys, mod = ref
         for key, val in o.heap.items():
+            if key not in h_keys:
+                continue        # created inside the body: fresh in every iteration, never visible in the exit state
             old = h_keys.get(key, None)
             if old is val:
                 continue
